@@ -234,7 +234,10 @@ def oracle_c10(b, report):
         elif e['kind'] == 'sym':
             t = n.symlink
             t = t.decode('utf-8', 'replace') if isinstance(t, bytes) else t
-            if t is None or t != e['target']:
+            def posix(q):
+                # 'a//b' and 'a/b/' name what 'a/b' names; a UDF path has no way (and no need) to record empty pieces
+                return ('/' if q.startswith('/') else '') + '/'.join(x for x in q.split('/') if x)
+            if t is None or posix(t) != posix(e['target']):
                 report('udf-symlink-target', 'UDF symlink %s: reader recovers %r, target given %r' % (p, t, e['target']), None)
         elif e['blob'] not in (None, -1):
             want_bytes = syslevel.blob_content(e['blob'], sizes.get(e['blob'], 0)) if e['blob'] > 0 else b''
